@@ -268,7 +268,7 @@ def e1_algebra(ctx):
 
 def e1_dv(ctx):
     tlc_mc(ctx, "DvCodec", "MC_DvCodec.cfg")
-    devs(ctx, "DvCodec", ["IncrementChunk", "NoInvalidate", "NoChunkCheck"], "Delivered")
+    devs(ctx, "DvCodec", ["IncrementChunk", "NoInvalidate", "NoChunkCheck", "EarlyFlushOverwritesLen"], "Delivered")
 
 
 def e1_reuse(ctx):
